@@ -1060,7 +1060,72 @@ func (c *Ctx) FBin(op Op, a, b *Term) *Term {
 	return c.bin(op, a.S, a, b)
 }
 
+// exactInt reports whether t is an exact int->float conversion (source
+// narrower than the mantissa) and returns the integer as a signed 64-bit term.
+func (c *Ctx) exactInt(t *Term) (*Term, bool) {
+	if (t.Op == OSIToFP || t.Op == OUIToFP) && t.S.W == 64 {
+		x := t.Args[0]
+		if t.Op == OSIToFP && x.S.W <= 53 {
+			return c.SExt(x, 64), true
+		}
+		if t.Op == OUIToFP && x.S.W <= 52 {
+			return c.ZExt(x, 64), true
+		}
+	}
+	if t.Op == OConst && t.S.K == KFP && t.S.W == 64 {
+		f := fval(t)
+		if f == float64(int64(f)) && f > -(1<<52) && f < 1<<52 {
+			return c.Const(BV(64), uint64(int64(f))), true
+		}
+	}
+	return nil, false
+}
+
 func (c *Ctx) FCmp(op Op, a, b *Term) *Term {
+	// comparisons between exactly converted integers are integer comparisons
+	// (keeps floating point out of the incremental solver where possible)
+	if !(a.IsConst() && b.IsConst()) {
+		if x, ok := c.exactInt(a); ok {
+			if y, ok2 := c.exactInt(b); ok2 {
+				switch op {
+				case OFEq:
+					return c.Eq(x, y)
+				case OFLt:
+					return c.Cmp(OSLt, x, y)
+				case OFLe:
+					return c.Cmp(OSLe, x, y)
+				}
+			}
+		}
+	}
+	// exactly converted integer vs a non-integral constant
+	if !(a.IsConst() && b.IsConst()) && a.S.W == 64 {
+		nonInt := func(t *Term) (float64, bool) {
+			if t.Op != OConst {
+				return 0, false
+			}
+			f := fval(t)
+			return f, f == f && f > -(1<<52) && f < 1<<52 && f != math.Floor(f)
+		}
+		if x, ok := c.exactInt(a); ok {
+			if f, ok2 := nonInt(b); ok2 {
+				fl := c.Const(BV(64), uint64(int64(math.Floor(f))))
+				if op == OFEq {
+					return c.F
+				}
+				return c.Cmp(OSLe, x, fl) // x < f  <=>  x <= f  <=>  x <= floor(f)
+			}
+		}
+		if y, ok := c.exactInt(b); ok {
+			if f, ok2 := nonInt(a); ok2 {
+				fl := c.Const(BV(64), uint64(int64(math.Floor(f))))
+				if op == OFEq {
+					return c.F
+				}
+				return c.Cmp(OSLt, fl, y) // f < y  <=>  f <= y  <=>  floor(f) < y
+			}
+		}
+	}
 	if a.IsConst() && b.IsConst() {
 		x, y := fval(a), fval(b)
 		switch op {
@@ -1113,6 +1178,13 @@ func (c *Ctx) IntToFP(a *Term, signed bool, s Sort) *Term {
 		}
 		return c.FConst(s, f)
 	}
+	// convert from the narrow operand of an extension: far cheaper to bit-blast
+	if a.Op == OSExt && signed {
+		return c.IntToFP(a.Args[0], true, s)
+	}
+	if a.Op == OZExt {
+		return c.IntToFP(a.Args[0], false, s)
+	}
 	if signed {
 		return c.un(OSIToFP, s, a)
 	}
@@ -1121,6 +1193,9 @@ func (c *Ctx) IntToFP(a *Term, signed bool, s Sort) *Term {
 
 // FPToInt converts with truncation toward zero (Go semantics for in-range values).
 func (c *Ctx) FPToInt(a *Term, signed bool, w int) *Term {
+	if x, ok := c.exactInt(a); ok && !a.IsConst() && w == 64 {
+		return x
+	}
 	if a.IsConst() {
 		f := fval(a)
 		if signed {
